@@ -186,6 +186,9 @@ def prepare(ctx):
 
 
 OPS = "harness/C19/ops.c"
+# every loop of code, spec and harness is bounded by nslots <= 6, per_slot <= 3, 4 control points, 4 NRPN registers:
+# --unwind 8 unwinds all of them completely; the unwinding assertions prove that (a failure would be exit 2)
+UNWIND = ["--object-bits", "12", "--unwind", "8", "--unwinding-assertions"]
 
 
 def configs(tier):
@@ -203,7 +206,6 @@ def op_obligations(ctx):
         ("handleMidi.nrpn_unbound", "h_handleMidi", {"CASE_NRPN_UNBOUND": None, "C19_REPLACE_setSlot": None}),
         ("handleMidi.nrpn_incomplete", "h_handleMidi", {"CASE_NRPN_INCOMPLETE": None, "C19_REPLACE_setSlot": None}),
         ("enqueue", "h_enqueue", {"NOSPLIT": None}),
-        ("setSlot.contract", "h_setSlot", {"NOSPLIT": None}),
         ("setSlotSub.frame", "h_setSlotSub", {"NOSPLIT": None}),
         ("updateMapping.frame", "h_updateMapping", {"NOSPLIT": None}),
         ("clearSlotSub.frame", "h_clearSlotSub", {}),
@@ -211,11 +213,14 @@ def op_obligations(ctx):
         ("setSlotSubOffset.frame", "h_setSlotSubOffset", {"NOSPLIT": None}),
     ]
     for ns, ps in configs(ctx.tier):
-        for name, entry, defs in table:
+        rows = list(table)
+        # setSlot against its contract: one obligation per in-range slot index, one for the out-of-range representatives
+        rows += [("setSlot.contract_s%d" % i, "h_setSlot", {"FIXED_SLOT": str(i)}) for i in range(ns)]
+        rows += [("setSlot.contract_oor", "h_setSlot", {})]
+        for name, entry, defs in rows:
             d = dict(defs, NS=str(ns), PS=str(ps))
             obls.append(Obl("C19.%s.n%dx%d" % (name, ns, ps), "C19", OPS, entry=entry, defines=d, mode="proof",
-                            replayable=True, cbmc=["--unwind", "8", "--unwinding-assertions"], timeout=600,
-                            functions=[], case={"nslots": ns, "per_slot": ps}))
+                            replayable=True, cbmc=UNWIND, timeout=600, case={"nslots": ns, "per_slot": ps}))
     return obls
 
 
